@@ -52,7 +52,7 @@ class Runtime:
             raise exc
 
     def _result(self, nd, args):
-        outs = nd["outputs"][: nd["ndata"]]
+        outs = nd["olabels"][: nd["ndata"]]
         vals = []
         for o in outs:
             if nd["fn"] == "id":
